@@ -93,12 +93,14 @@ def run_one(prop, case, st):
     import signal
 
     signal.signal(signal.SIGALRM, _alarm)
-    signal.alarm(int(os.environ.get("VERIF_CASE_TIMEOUT", "30")))
+    # repeating timer: an exception raised inside a GC / weakref callback is swallowed by the
+    # interpreter, so keep raising every 5 s until it lands in ordinary code
+    signal.setitimer(signal.ITIMER_REAL, float(os.environ.get("VERIF_CASE_TIMEOUT", "30")), 5.0)
     try:
         try:
             prop.check(case, st)
         finally:
-            signal.alarm(0)
+            signal.setitimer(signal.ITIMER_REAL, 0)
     except CaseTimeout:
         st.decline("timeout(no verdict)")
         _reset_interpretation_stack()
@@ -360,8 +362,18 @@ def parent(args):
         procs.append((k, out, log, subprocess.Popen(cmd, env=env_k, stdout=log, stderr=log, cwd=ROOT)))
     merged = Stats()
     harness_errors = []
+    hard_limit = t0 + args.max_wall + 180
+    killed = 0
     for k, out, log, p in procs:
-        rc = p.wait()
+        try:
+            rc = p.wait(timeout=max(1.0, hard_limit - time.time()))
+        except subprocess.TimeoutExpired:
+            # a shard stuck in non-interruptible code: inconclusive, not a verdict
+            p.kill()
+            p.wait()
+            killed += 1
+            log.close()
+            continue
         log.close()
         if rc != 0 or not os.path.exists(out):
             tail = open(log.name).read()[-3000:]
@@ -393,6 +405,8 @@ def parent(args):
                 merged.notes[kk] = vv
         if d.get("exhaustive"):
             merged.exhaustive = True
+    if killed:
+        merged.notes["shards_killed_after_hard_limit(inconclusive)"] = killed
     if harness_errors:
         print("HARNESS ERROR", file=sys.stderr)
         for h in harness_errors[:3]:
